@@ -65,6 +65,15 @@ USES = [
     ("weak_same_tuple", ":~ {SH}. [L@1,D]\n:~ ps(D,L), L > 1. [L@1,D]"),
     ("weak_same_tuple_rev", ":~ ps(D,L), L > 1. [L@1,D]\n:~ {SH}. [L@1,D]"),
     ("weak_unify_othervars", ":~ {SH}. [L@1,D]\n:~ ps(E,M), M > 1. [M@1,E]"),
+    ("sum_not", "a :- not 2 <= #sum {{ L,D : {SH} }}."),
+    ("sum_notnot", "a :- not not 2 <= #sum {{ L,D : {SH} }}."),
+    ("sum_scope_clash", "a(X) :- X = #sum {{ L,D : {SH} }}, 1 <= #count {{ L : ps(_,L) }}."),
+    ("sum_scope_clash_cond", "a(X) :- X = #sum {{ L,D : {SH} }}, day(D) : ps(D,L)."),
+    ("weak_arith_tuple", ":~ {SH}. [L@1,D/3]"),
+    ("weak_fun_tuple", ":~ {SH}. [L@1,f(D)]"),
+    ("weak_zero_tuple", ":~ {SH}. [L@1,D*0]"),
+    ("sum_arith_tuple", "a(X) :- X = #sum {{ L,D/3 : {SH} }}."),
+    ("sum_fun_tuple", "a(X) :- X = #sum {{ L,f(D,1) : {SH} }}."),
     ("weak_notuple", ":~ {SH}. [L@1]"),
     ("weak_extra", ":~ {SH}, day(D). [L@2,D]"),
     ("weak_anon", ":~ {SHA}. [L@1]"),
